@@ -12,7 +12,7 @@ from ..bcrel import check_ghosts
 
 ID = 'C12'
 RULE = ('cases = (grid class, N, spacing family, BC kinds, spatial term set in {diffusion, +upwind, +central, +linear source, +constant '
-        'source}, kind in {be-residual, fixed-point, limits, explicit, consistency}, dt over 12 decades, alpha scalar / ndarray / '
+        'source}, kind in {be-residual, fixed-point, limits, explicit, consistency, loop = documented time-loop idioms: explicit loop carried by update_value vs rebinding; BC edit + explicit step from phi + implicit step on phi vs a twin without the explicit step}, dt over 12 decades, alpha scalar / ndarray / '
         'CellVariable, multi-step sequences); non-trivial = old field not constant and dt finite; distinct by (class, N, families, BC '
         'vector, term set, kind, alpha kind)')
 ASSUMPTIONS = ['limit tolerances are computed from the captured operator: dt->inf: 10*(alpha/dt)*||M_steady^-1||*||old-steady||; dt->0: '
@@ -199,6 +199,107 @@ def run_case(case):
                 bad += [('explicit-ghosts/' + a_, s_) for a_, s_ in b2]
                 cov['explicit_steps'] = cov.get('explicit_steps', 0) + 1
                 phi = new
+        elif kind == 'loop':
+            sub = case.get('sub', 'explicit-update')
+            cov['loop:' + sub] = 1
+            if sub == 'explicit-update':
+                # the documented explicit time loop: c = solveExplicitPDE(c_old, dt, RHS(c_old)); c_old.update_value(c)
+                # reference: the same loop carried by rebinding (r = solveExplicitPDE(r, ...)); both must agree step by step,
+                # and c_old must hold re-imposed boundary values after every update
+                c_old = pf.CellVariable(m, old_vals.copy(), gen.make_bc(pf, m, g, spec))
+                ref = pf.CellVariable(m, old_vals.copy(), gen.make_bc(pf, m, g, spec))
+                Sabs = abs(S)
+                nrm = float(np.max(np.asarray(Sabs.sum(axis=1)).ravel()[rows])) + 1e-300
+                nsteps = int(rng.integers(2, 6))
+                for step in range(nsteps):
+                    dt = float(10 ** rng.uniform(-2, -0.3)) / nrm
+                    rhs_c = -(S @ np.asarray(c_old._value).ravel() - bvec)
+                    rhs_r = -(S @ np.asarray(ref._value).ravel() - bvec)
+                    c = pf.solveExplicitPDE(c_old, dt, rhs_c)
+                    c_old.update_value(c)
+                    ref = pf.solveExplicitPDE(ref, dt, rhs_r)
+                    sc = float(np.max(np.abs(np.asarray(ref._value)))) + 1e-300
+                    d = float(np.max(np.abs(np.asarray(c_old._value) - np.asarray(ref._value)))) / sc
+                    maxerr['loop-update-vs-rebind'] = max(maxerr.get('loop-update-vs-rebind', 0.0), d)
+                    cov['loop_steps'] = cov.get('loop_steps', 0) + 1
+                    if d > 1e-12:
+                        bad.append(('loop/update_value', 'explicit loop step %d: the variable refreshed with update_value() differs from the rebinding loop by relative %.3g (interior %.3g)' % (
+                            step + 1, d, float(np.max(np.abs(np.asarray(c_old.value) - np.asarray(ref.value)))) / sc)))
+                        break
+                    if c_old.BCs.modified or c_old.value.modified:
+                        c_old.apply_BCs()            # what every solver does first with a flagged variable
+                    b2, me, cv = check_ghosts(g, c_old._value, c_old.BCs)
+                    if b2:
+                        bad += [('loop/ghosts-after-update/' + a_, s_) for a_, s_ in b2]
+                        break
+            else:
+                # mixed loop: [implicit step], boundary condition edited through the public setters, explicit step taken FROM phi
+                # (which must leave phi untouched and usable), then a backward-Euler step ON phi
+                phi = pf.CellVariable(m, old_vals.copy(), gen.make_bc(pf, m, g, spec))
+                twin = pf.CellVariable(m, old_vals.copy(), gen.make_bc(pf, m, g, spec))     # same history without the explicit step
+                if rng.random() < 0.5:
+                    dt0 = float(10 ** rng.uniform(-3, 1))
+                    for v in (phi, twin):
+                        pf.solvePDE(v, [pf.transientTerm(v, dt0, 1.0)] + mats + [bvec])
+                ke = int(rng.integers(0, g.nd))
+                edited = None
+                if ke not in spec['periodic']:
+                    edited = SIDES[ke][int(rng.integers(0, 2))]
+                    how = str(rng.choice(['c', 'fixedValue', 'robin']))
+                    shift_c = float(rng.normal()) + 1.5
+                    for v in (phi, twin):
+                        fe = getattr(v.BCs, edited)
+                        if how == 'c':
+                            fe.c = np.asarray(fe.c) + shift_c
+                        elif how == 'fixedValue':
+                            fe.fixedValue(shift_c)
+                        else:
+                            fe.a = np.asarray(fe.a) * 0.5 + 1.0
+                            fe.b = np.asarray(fe.b) * 0.5 - (1.0 if edited == SIDES[ke][0] else -1.0)
+                            fe.c = np.asarray(fe.c) - shift_c
+                    cov['loop_bc_edit:' + edited] = 1
+                Sabs = abs(S)
+                nrm = float(np.max(np.asarray(Sabs.sum(axis=1)).ravel()[rows])) + 1e-300
+                dte = 0.1 / nrm
+                vis0 = digest(*cellvar_arrays(phi, visible_only=True))
+                rhs = -(S @ np.asarray(phi._value).ravel() - bvec) if rng.random() < 0.5 else rng.normal(0, 1, nfull)
+                new = pf.solveExplicitPDE(phi, dte, rhs)
+                if digest(*cellvar_arrays(phi, visible_only=True)) != vis0:
+                    bad.append(('explicit-input-modified', 'solveExplicitPDE changed the interior values or boundary conditions of its input'))
+                b2, me, cv = check_ghosts(g, new._value, new.BCs)
+                bad += [('explicit-ghosts/' + a_, s_) for a_, s_ in b2]
+                dt = float(10 ** rng.uniform(-4, 4))
+                alpha, aarr, akind = alpha_of(rng, m, g)
+                old = np.array(phi.value, copy=True)
+                spy, spy_t = SpySolver(), SpySolver()
+                pf.solvePDE(phi, [pf.transientTerm(phi, dt, alpha)] + mats + [bvec], externalsolver=spy)
+                pf.solvePDE(twin, [pf.transientTerm(twin, dt, alpha)] + mats + [bvec], externalsolver=spy_t)
+                M, b, x = spy.last
+                xt = spy_t.last[2]
+                if not (np.all(np.isfinite(x)) and np.all(np.isfinite(xt))):
+                    inconclusive = 'singular system'
+                else:
+                    Mtr = sp.csr_array((aarr.ravel() / dt, (rows, rows)), shape=(nfull, nfull))
+                    rtr = np.zeros(nfull)
+                    rtr[rows] = aarr.ravel() * old.ravel() / dt
+                    e = residual_err(Mtr + S, x, rtr + bvec, rows, solver_output=True)
+                    # the same equations on the REPORTED new variable (solved interior + re-imposed boundary values): recomputed
+                    # ghosts carry the solver's backward error divided by the ghost coefficient, hence 1e-7 (defects give >= 1e-3)
+                    xr = np.asarray(phi._value, dtype=float).ravel()
+                    e_rep = residual_err(Mtr + S, xr, rtr + bvec, rows, solver_output=True)
+                    e_twin = residual_err(M, xt, b, solver_output=True)
+                    maxerr['loop-be-residual'] = max(maxerr.get('loop-be-residual', 0.0), e)
+                    maxerr['loop-be-residual-reported'] = max(maxerr.get('loop-be-residual-reported', 0.0), e_rep)
+                    maxerr['loop-twin-residual'] = max(maxerr.get('loop-twin-residual', 0.0), e_twin)
+                    cov['loop_steps'] = cov.get('loop_steps', 0) + 1
+                    if not (e <= TOL):
+                        bad.append(('be-residual', 'implicit step after an explicit step from the same variable: alpha*(new-old)/dt + S new - b != 0 (normalised %.3g)' % e))
+                    if not (e_rep <= 1e-7):
+                        bad.append(('loop/be-residual-reported', 'BC edit on %s, explicit step from phi, then backward-Euler step on phi: the new variable (with its boundary values) violates '
+                                    'alpha*(new-old)/dt + S new = b in boundary-adjacent cells (normalised %.3g)' % (edited, e_rep)))
+                    if not (e_twin <= TOL):
+                        bad.append(('loop/explicit-step-side-effect', 'the backward-Euler system solved on phi after solveExplicitPDE(phi, ...) is not the one solved without the '
+                                    'intervening explicit step (BC edit on %s): residual of the twin solution %.3g' % (edited, e_twin)))
         elif kind == 'consistency':
             phi0 = pf.CellVariable(m, old_vals.copy(), gen.make_bc(pf, m, g, spec))
             alpha = float(10 ** rng.uniform(-0.5, 0.5))
@@ -251,7 +352,7 @@ def run_case(case):
     return {'verdict': 'held', 'key': key, 'cov': cov, 'maxerr': maxerr, 'nontrivial': ffam != 'const', 'sample': sample}
 
 
-KINDS = ['be-residual', 'fixed-point', 'limits', 'explicit', 'consistency']
+KINDS = ['be-residual', 'fixed-point', 'limits', 'explicit', 'consistency', 'loop']
 
 
 def plan(tier, seed):
@@ -262,7 +363,7 @@ def plan(tier, seed):
         i = 0
         for kind in KINDS:
             for rep in range(per):
-                cases.append({'cls': cls, 'kind': kind, 'seed': [seed, 12, ci, i]})
+                cases.append({'cls': cls, 'kind': kind, 'seed': [seed, 12, ci, i], 'sub': ['explicit-update', 'mixed'][rep % 2]})
                 i += 1
         step = 9 if NDIM[cls] == 3 else 25
         for j in range(0, len(cases), step):
@@ -277,7 +378,7 @@ def floors(agg, tier):
             if agg['cov'].get('kind:%s:%s' % (kind, cls), 0) < 4:
                 out.append('kind:%s:%s < 4' % (kind, cls))
     for k, need in (('be_steps', 50), ('fixed_point_steps', 40), ('limit_inf', 15), ('limit_zero', 15), ('explicit_steps', 50), ('consistency', 15),
-                    ('alpha:scalar', 5), ('alpha:ndarray', 5), ('alpha:cellvar', 5), ('with_periodic', 10)):
+                    ('alpha:scalar', 5), ('alpha:ndarray', 5), ('alpha:cellvar', 5), ('with_periodic', 10), ('loop:explicit-update', 15), ('loop:mixed', 15), ('loop_steps', 40)):
         if agg['cov'].get(k, 0) < need:
             out.append('%s < %d' % (k, need))
     return out
